@@ -102,6 +102,12 @@ pub fn exact_norm_triple(p: Params, ntt: &Ntt, rng: &mut Prng, target: i64, edge
 /// coefficient is the last bit of the buffer), and the last coefficient gets a
 /// non-empty unary part in half of the cases.
 pub fn exact_norm_triple_fill(p: Params, ntt: &Ntt, rng: &mut Prng, target: i64, edge: bool, fill: Option<usize>) -> Option<Triple> {
+    exact_norm_triple_shape(p, ntt, rng, target, edge, fill, 0)
+}
+
+/// `shape` 0: norm shared between s1 and s2; 1: s1 = 0, all of the norm in a
+/// sparse s2 (four large coefficients); 2: s2 = +-x^j (norm 1), the rest in s1.
+pub fn exact_norm_triple_shape(p: Params, ntt: &Ntt, rng: &mut Prng, target: i64, edge: bool, fill: Option<usize>, shape: u8) -> Option<Triple> {
     let n = p.n;
     let msg = crate::world::message(rng);
     let salt = rng.bytes(40);
@@ -124,6 +130,27 @@ pub fn exact_norm_triple_fill(p: Params, ntt: &Ntt, rng: &mut Prng, target: i64,
         }
         let sigma2 = ((budget as f64) * frac / n as f64).sqrt().min(170.0);
         let mut s2: Vec<i64> = (0..n).map(|_| gaussish(rng, sigma2)).collect();
+        if shape == 1 {
+            // everything in s2: four squares summing to the budget at random positions
+            s2 = vec![0i64; n];
+            let four = match four_squares(rng, budget, 6144) {
+                Some(f) => f,
+                None => return None,
+            };
+            let mut pos: Vec<usize> = Vec::new();
+            while pos.len() < 4 {
+                let q = rng.usize_below(n);
+                if !pos.contains(&q) {
+                    pos.push(q);
+                }
+            }
+            for k in 0..4 {
+                s2[pos[k]] = four[k];
+            }
+        } else if shape == 2 {
+            s2 = vec![0i64; n];
+            s2[rng.usize_below(n)] = if rng.chance(1, 2) { 1 } else { -1 };
+        }
         if let Some(slack) = fill {
             let want = (p.sig_len - 41) * 8 - slack;
             if rng.chance(1, 2) {
@@ -159,6 +186,9 @@ pub fn exact_norm_triple_fill(p: Params, ntt: &Ntt, rng: &mut Prng, target: i64,
         if rest < 0 {
             continue;
         }
+        if shape == 1 && rest != 0 {
+            continue;
+        }
         // s1: n-4 free coordinates carrying slightly less than `rest`
         let free = (n - 4 - edge as usize) as f64;
         let sigma1 = ((rest as f64) * 0.97 / free).sqrt();
@@ -170,6 +200,13 @@ pub fn exact_norm_triple_fill(p: Params, ntt: &Ntt, rng: &mut Prng, target: i64,
             let v = gaussish(rng, sigma1).clamp(-6144, 6144);
             s1[i] = v;
             n1 += v * v;
+        }
+        if shape == 1 {
+            // s1 stays zero
+            for v in s1.iter_mut() {
+                *v = 0;
+            }
+            n1 = 0;
         }
         let r = rest - n1;
         let four = match four_squares(rng, r, 6144) {
@@ -198,7 +235,7 @@ pub fn exact_norm_triple_fill(p: Params, ntt: &Ntt, rng: &mut Prng, target: i64,
             pk,
             norm,
             s1_max: s1.iter().map(|x| x.abs()).max().unwrap_or(0),
-            note: format!("Z1 target={} edge={} |s2|^2={} fill={:?}", target, edge, n2, fill),
+            note: format!("Z1 target={} edge={} |s2|^2={} fill={:?} shape={}", target, edge, n2, fill, shape),
         });
     }
     None
@@ -531,4 +568,48 @@ pub fn craft_sk(rng: &mut Prng, p: Params, valid: &[u8]) -> CraftedKey {
             }
         }
     }
+}
+
+// ---------------------------------------------------------------------------
+// Z4: salt grinding. The salt is attacker-controlled signature bytes; a
+// Byzantine prover can grind it so that the hash-to-point stream of
+// (salt || msg) is extreme: many rejected 16-bit samples before n coefficients
+// are collected.
+// ---------------------------------------------------------------------------
+
+/// number of rejected samples HashToPoint sees before it has n coefficients
+pub fn hash_rejections(salt_and_msg: &[u8], n: usize) -> usize {
+    use sha3::digest::{ExtendableOutput, Update, XofReader};
+    let mut h = sha3::Shake256::default();
+    h.update(salt_and_msg);
+    let mut r = h.finalize_xof();
+    let mut got = 0;
+    let mut rej = 0;
+    let mut buf = [0u8; 2];
+    while got < n {
+        r.read(&mut buf);
+        let t = ((buf[0] as u32) << 8) | buf[1] as u32;
+        if t < 5 * Q as u32 {
+            got += 1;
+        } else {
+            rej += 1;
+        }
+    }
+    rej
+}
+
+pub fn grind_salt(rng: &mut Prng, msg: &[u8], n: usize, trials: usize) -> (Vec<u8>, usize) {
+    let mut best = (rng.bytes(40), 0usize);
+    let mut sm = vec![0u8; 40 + msg.len()];
+    sm[40..].copy_from_slice(msg);
+    let base = rng.bytes(40);
+    for t in 0..trials {
+        sm[..40].copy_from_slice(&base);
+        sm[..8].copy_from_slice(&(t as u64).wrapping_mul(0x9E3779B97F4A7C15).to_le_bytes());
+        let r = hash_rejections(&sm, n);
+        if r >= best.1 {
+            best = (sm[..40].to_vec(), r);
+        }
+    }
+    best
 }
